@@ -76,7 +76,12 @@ fn run_scalar(ctx: &Ctx) -> Report {
     par_run(jobs, ctx.threads, move |idx, rep| {
         let mut rng = Rng::derive(seed, 0xC02, *idx as u64);
         let len = rng.range(50, maxlen);
-        let xs: Vec<f64> = if idx % 2 == 0 {
+        let xs: Vec<f64> = if idx % 16 == 14 {
+            // "every finite stream": magnitudes far outside the usual price range (kept below 1e150 so that
+            // multiplier * ATR cannot overflow in a correct implementation either)
+            rep.count("scalar.streams_with_huge_or_tiny_magnitudes");
+            rand_stream(if idx % 32 == 14 { crate::gen::RandKind::Huge } else { crate::gen::RandKind::Tiny }, len, &mut rng)
+        } else if idx % 2 == 0 {
             rand_stream(RAND_KINDS[(idx / 2) % RAND_KINDS.len()], len, &mut rng)
         } else {
             let m = *rng.pick(&[1e-3, 1.0, 37.5, 1e6]);
